@@ -49,32 +49,39 @@ BinSizeOK(i, r) == G("BinSizeMatches", i, "binsize", r.bin \in Bins /\ r.size = 
 PrevIs(i, kind) == i > 2 /\ KindOf(Rows[i - 1]) = kind
 ReqOf(n) == IF Pad > 0 /\ n = 0 THEN WSize ELSE n        \* alloc.c: a padded build turns a request of 0 into sizeof(void*)
 
-BinOK(i, r) ==
-  LET n == r.n
+\* the same row is measured in several passes (field ph): "asc" first ascending sweep in a fresh heap, "asc2" second ascending
+\* pass with live blocks of every class, "desc" descending, "rnd" seeded random order with interleaved frees, "late" after
+\* the address-arithmetic section.  The demand per row is the same in every pass: which block serves a request must not
+\* depend on the history of the heap (direct small-page table heap->pages_free_direct, queue heads).
+BinKind(r) == IF "ph" \in DOMAIN r /\ r.ph # "asc" THEN "bin." \o r.ph ELSE "bin"
+BinOK(i, r0) ==
+  LET r == r0
+      n == r.n
       med == n <= Cfg.medmax
+      kd == BinKind(r)
   IN
-  /\ G("AllocSucceededMatches", i, "bin", r.us >= 0 /\ r.pbs >= 0)
-  /\ G("BinInRange", i, "bin", r.bin >= 1 /\ r.bin <= Cfg.binhuge)
-  /\ G("BlockSizeAtLeastRequest", i, "bin",
+  /\ G("AllocSucceededMatches", i, kd, r.us >= 0 /\ r.pbs >= 0)
+  /\ G("BinInRange", i, kd, r.bin >= 1 /\ r.bin <= Cfg.binhuge)
+  /\ G("BlockSizeAtLeastRequest", i, kd,
        /\ (med => r.bsz >= n)
        /\ (r.us >= 0 => (r.us >= n /\ r.pbs >= n + Pad)))
-  /\ G("BinMonotone", i, "bin",
+  /\ G("BinMonotone", i, kd,
        /\ r.bin <= r.bin1
        /\ (PrevIs(i, "bin") /\ Rows[i - 1].n < n => Rows[i - 1].bin <= r.bin))
-  /\ G("Fragmentation25", i, "bin", (n > 64 /\ med) => (r.bsz - n) * 4 <= n)
-  /\ G("GoodAtLeast", i, "bin", r.good >= n)
+  /\ G("Fragmentation25", i, kd, (n > 64 /\ med) => (r.bsz - n) * 4 <= n)
+  /\ G("GoodAtLeast", i, kd, r.good >= n)
   \* padded (debug/secure) builds: mi_good_size includes MI_PADDING_SIZE, so the fixed point is taken modulo the padding
-  /\ G("GoodIdempotent", i, "bin", IF Pad = 0 THEN r.g2 = r.good ELSE (r.g2 = r.good \/ r.g2p = r.good))
+  /\ G("GoodIdempotent", i, kd, IF Pad = 0 THEN r.g2 = r.good ELSE (r.g2 = r.good \/ r.g2p = r.good))
   \* release: usable size = good size.  padded builds report the requested size as usable size; there the good size must be
   \* the size of the block that serves the request (with or without the padding), while request + padding is a medium size
-  /\ G("GoodEqualsUsable", i, "bin",
+  /\ G("GoodEqualsUsable", i, kd,
        (med /\ r.us >= 0) => IF Pad = 0 THEN r.good = r.us
                              ELSE (n + Pad <= Cfg.medmax => (r.good = r.pbs \/ r.good = r.pbs - Pad)))
-  /\ G("BinMatches", i, "bin", r.bin = Bin(n) /\ r.bin1 = Bin(n + 1))
-  /\ G("BinSizeMatches", i, "bin", r.bin \in Bins /\ r.bsz = BinSize(r.bin))
-  /\ G("GoodSizeMatches", i, "bin", r.good = GoodSizeP(n, Pad))
-  /\ G("ChosenMatches", i, "bin", (r.pbs >= 0 /\ n + Pad <= LargeObjMax) => r.pbs = ChosenBlockSize(ReqOf(n), Pad))
-  /\ G("UsableMatches", i, "bin", r.us >= 0 => IF Pad = 0 THEN r.us = r.pbs ELSE r.us = ReqOf(n))
+  /\ G("BinMatches", i, kd, r.bin = Bin(n) /\ r.bin1 = Bin(n + 1))
+  /\ G("BinSizeMatches", i, kd, r.bin \in Bins /\ r.bsz = BinSize(r.bin))
+  /\ G("GoodSizeMatches", i, kd, r.good = GoodSizeP(n, Pad))
+  /\ G("ChosenMatches", i, kd, (r.pbs >= 0 /\ n + Pad <= LargeObjMax) => r.pbs = ChosenBlockSize(ReqOf(n), Pad))
+  /\ G("UsableMatches", i, kd, r.us >= 0 => IF Pad = 0 THEN r.us = r.pbs ELSE r.us = ReqOf(n))
 
 \* sizes up to PTRDIFF_MAX by value (not allocated); numbers are 4 big-endian limbs of 20 bits
 AlignUpPageBN(a) == LET t == BNAdd(a, BNFromInt(OsPage - 1)) IN BNSub(t, BNFromInt(BNModSmall(t, OsPage)))
